@@ -421,6 +421,7 @@ def op_grpc_session(o):
             for call in o["calls"]:
                 start, k0, s0 = len(srv.log), len(kinds), len(trap.sleeps)
                 t0_ = len(tmo) if tmo is not None else 0
+                w0_ = time.monotonic()          # (C09) real time the call took
                 if call.get("script"):
                     with srv.lock:
                         for p, q in call["script"].items():
@@ -439,6 +440,7 @@ def op_grpc_session(o):
                 res["sleeps"] = trap.sleeps[s0:]
                 if tmo is not None:
                     res["timeouts"] = tmo[t0_:]
+                res["wall_s"] = time.monotonic() - w0_
                 results.append(res)
             ch.close()
         else:
@@ -450,6 +452,7 @@ def op_grpc_session(o):
                 for call in o["calls"]:
                     start, k0, s0 = len(srv.log), len(kinds), len(trap.sleeps)
                     t0_ = len(tmo) if tmo is not None else 0
+                    w0_ = time.monotonic()          # (C09) real time the call took
                     if call.get("script"):
                         with srv.lock:
                             for p, q in call["script"].items():
@@ -478,6 +481,7 @@ def op_grpc_session(o):
                     res["sleeps"] = trap.sleeps[s0:]
                     if tmo is not None:
                         res["timeouts"] = tmo[t0_:]
+                    res["wall_s"] = time.monotonic() - w0_
                     results.append(res)
                 await ch.close()
             asyncio.run(main())
